@@ -8,11 +8,11 @@ export GOFLAGS=-mod=mod GOPROXY=off
 git -C /repo worktree add -q --detach $WT HEAD || exit 2
 cd $WT
 cp $S/demo_test.go.txt $demopkg/zz_seed_demo_test.go
-echo "== demo WITHOUT patch"; go test -count=1 -run "$demorun" ./$demopkg/ 2>&1 | tail -3
+echo "== demo WITHOUT patch"; go test ${SEEDTAGS} -count=1 -run "$demorun" ./$demopkg/ 2>&1 | tail -3
 git apply $S/patch.diff || { echo "patch does not apply"; }
-echo "== demo WITH patch"; go test -count=1 -run "$demorun" ./$demopkg/ 2>&1 | tail -4 | cut -c1-300
+echo "== demo WITH patch"; go test ${SEEDTAGS} -count=1 -run "$demorun" ./$demopkg/ 2>&1 | tail -4 | cut -c1-300
 rm $demopkg/zz_seed_demo_test.go
-echo "== existing tests WITH patch"; go build ./... && go test -count=1 $pkgs 2>&1 | grep -E "^(ok|FAIL|---)" | head
+echo "== existing tests WITH patch"; go build ./... && go test ${SEEDTAGS} -count=1 $pkgs 2>&1 | grep -E "^(ok|FAIL|---)" | head
 cd /verif; git -C /repo worktree remove --force $WT
 echo "== checks against the seeded change"
 git -C /repo apply $S/patch.diff
